@@ -883,6 +883,35 @@ Section Proofs.
 End Proofs.
 
 (* ------------------------------------------------------------------------------------------------ *)
+(*  the linter cache of an open document is rebuilt after an add                                      *)
+(* ------------------------------------------------------------------------------------------------ *)
+Lemma length_concat_perm : forall (a b : list word), Permutation a b -> length (concat a) = length (concat b).
+Proof.
+  intros a b P. induction P; cbn [concat]; rewrite ?app_length; lia.
+Qed.
+Lemma words_of_insert_new : forall k e d, lookup k d = None -> words_of (insert k e d) = words_of d ++ [fst e].
+Proof.
+  intros k e d. induction d as [|[k' e'] t IH]; cbn [lookup insert]; intro H; [reflexivity|].
+  destruct (weqb k k'); [discriminate|]. unfold words_of in *. cbn [map]. now rewrite IH.
+Qed.
+(* partial: for a non-empty word with a NEW id the hashed stream gets longer, whatever the two iteration
+   orders are, so the child hash changes and update_document builds a new linter.  Not covered (and false
+   in corner cases, see notes/C07.md): the empty word (stream unchanged) and the replacement of a spelling
+   with the same id ({"aA","A"} -> {"Aa","A"} can hash the same stream "AaA" in suitable orders). *)
+Theorem merge_rebuild_partial : forall (is_lower : N -> bool) (lower : N -> list N) (o1 o2 : list word -> list word),
+  (forall l, Permutation (o1 l) l) -> (forall l, Permutation (o2 l) l) ->
+  forall (d : dict) (w : word),
+  lookup (word_id is_lower lower w) d = None -> w <> [] ->
+  child_stream o1 d <> child_stream o2 (append_word is_lower lower d w).
+Proof.
+  intros is_lower lower o1 o2 P1 P2 d w Hnew Hw E. apply (f_equal (@length N)) in E.
+  unfold child_stream, words_iter, append_word in E.
+  rewrite (length_concat_perm _ _ (P1 _)), (length_concat_perm _ _ (P2 _)) in E.
+  rewrite words_of_insert_new in E by exact Hnew. cbn [fst] in E.
+  rewrite concat_app, app_length in E. cbn [concat] in E. rewrite app_nil_r in E.
+  destruct w; [now apply Hw|cbn [length] in E; lia].
+Qed.
+(* ------------------------------------------------------------------------------------------------ *)
 (*  file_dict_name                                                                                    *)
 (* ------------------------------------------------------------------------------------------------ *)
 Definition no_pct (seg : list N) : Prop := ~ In PCT seg.
@@ -994,3 +1023,16 @@ Lemma wasm_resync_refuted :
   x_wasm tb_zorgle [] [WImport [w_Zorgle]; WImport [w_zorgle]; WLint [w_zorgle]; WExport]
   = [WONone; WONone; WOFlags [true]; WOWords [w_zorgle]].
 Proof. vm_compute. reflexivity. Qed.
+
+(* the same-id corner of merge_rebuild_partial: {aA, A} -> {Aa, A} can hash the same stream "AaA" *)
+Lemma merge_rebuild_refuted_same_id :
+  exists (d : dict) (w : word) (o1 o2 : list word -> list word),
+    (forall l, Permutation (o1 l) l) /\ (forall l, Permutation (o2 l) l) /\
+    words_of (append_word a_is_lower a_lower d w) <> words_of d /\
+    child_stream o1 d = child_stream o2 (append_word a_is_lower a_lower d w).
+Proof.
+  exists (append_word a_is_lower a_lower (append_word a_is_lower a_lower [] [97; 65]%N) [65]%N).
+  exists [65; 97]%N, (@rev word), id_order.
+  split; [intro l; apply Permutation_sym, Permutation_rev|]. split; [apply id_order_perm|].
+  vm_compute. split; [discriminate|reflexivity].
+Qed.
